@@ -20,14 +20,15 @@ PROPS = {
         ],
     },
     "C17": {
-        "units": ["u2f", "enc"],
+        "units": ["u2f", "enc", "cer"],
         "kani_complete": [],
         "kani_bounded_quick": ["u2f_enc_quick"],
         "kani_bounded_thorough": ["u2f_enc", "u2f_wf"],
         "design_ref": "DESIGN.md section 5 / C17",
         "not_covered": [
-            "U2fApi::register / authenticate (async_trait methods, p256 signing, iterator chains): that the "
-            "signatures verify and what their signing input is",
+            "U2fApi::register / authenticate are proved on the real bodies (unit cer): the signing inputs are exactly the byte strings of the "
+            "property, the key is the fresh / stored one, the credential saved is for that application and key handle, nothing listed by the "
+            "store => error; that an ECDSA signature VERIFIES is p256 (spec_sign is an uninterpreted function of key and message)",
             "response encoders: proved by unit enc over rule R23 (a byte chain is the concatenation of what its sources yield: a trusted model of into_iter / chain / collect); the bounded Kani family K-U2F-ENC checks the same layouts on the compiled crate",
             "key handles longer than 255 bytes (outside the property's quantifier)",
         ],
